@@ -15,15 +15,15 @@ PLAN = dict(
                           "broadcasting keeper one of which rejects, successors of limiter/broadcast/indexer/overwrite nodes that reject)",
                           "a message may stay parked for ever in front of a join port, a saturated limiter without decrements, a write_once_node that already has a value, "
                           "or behind a sequence gap; mid-run wait_for_all coverage stops at such nodes",
-                          "a message queued behind a lightweight body that runs inline inside ANOTHER external thread's try_put is not covered by wait_for_all "
+                          "a message queued behind a lightweight body that runs inline inside ANOTHER external thread's try_put, or accepted by a buffering node whose aggregator handler is another external thread still inside its try_put, is not covered by wait_for_all "
                           "(known finding C14-lightweight-wait-for-all-gap; the coverage demand is waived at concurrency-limited lightweight nodes while such a put overlaps "
                           "the wait, counted as excluded; the witness leg runs without the waiver)",
                           "input_node -> write_once_node is outside the domain (once the value is set the input_node re-spawns its put task for ever and wait_for_all cannot return)",
                           "cancellation / exceptions inside node bodies are covered by C03, not generated here"],
     floor=dict(quick=150, thorough=1500),
     tiers=dict(
-        quick=[det("rel", H, "cs-rel", 16, 110, 4, tso=True, time_cap=30),
-               det("dbg", H, "cs-dbg", 16, 45, 4, tso=True, time_cap=25),
+        quick=[det("rel", H, "cs-rel", 16, 95, 4, tso=True, time_cap=28),
+               det("dbg", H, "cs-dbg", 16, 40, 4, tso=True, time_cap=22),
                det("witness-lightweight-wait-gap", H, "cs-rel", 2, 40, 4, tso=False, time_cap=20, args=["--witness"])],
         thorough=[det("rel", H, "cs-rel", 16, 2200, 5, tso=True, time_cap=330),
                   det("dbg", H, "cs-dbg", 16, 700, 5, tso=True, time_cap=240),
